@@ -1069,15 +1069,24 @@ func checkTimerRoutines(c *core.Ctx, s *sess, rule string) {
 	if st := s.m.Method("start"); st != nil {
 		// the functions start spawns: literals or named functions of the package
 		var routines []*ssa.Function
-		an.AllInstrs(st, func(in ssa.Instruction) {
-			if gg, ok := in.(*ssa.Go); ok {
-				if g := an.StaticCallee(&gg.Call); g != nil && len(g.Blocks) > 0 && g.Pkg == st.Pkg {
-					routines = append(routines, g)
-				} else {
-					c.Ob(rule, "start", "go statement with a resolvable body", in.Pos()).Unknown("cannot resolve the function spawned here")
-				}
+		// start together with the steps cut out of it (a helper that launches the two loops)
+		group := []*ssa.Function{st}
+		for _, f := range an.PkgFuncs(st.Pkg) {
+			if owner, chain := an.LogicalOwner(f); owner == st && len(chain) > 0 && f.Parent() == nil {
+				group = append(group, f)
 			}
-		})
+		}
+		for _, gf := range group {
+			an.AllInstrs(gf, func(in ssa.Instruction) {
+				if gg, ok := in.(*ssa.Go); ok {
+					if g := an.StaticCallee(&gg.Call); g != nil && len(g.Blocks) > 0 && g.Pkg == st.Pkg {
+						routines = append(routines, g)
+					} else {
+						c.Ob(rule, "start", "go statement with a resolvable body", in.Pos()).Unknown("cannot resolve the function spawned here")
+					}
+				}
+			})
+		}
 		for _, g := range routines {
 			ok := false
 			an.AllInstrs(g, func(in ssa.Instruction) {
